@@ -28,4 +28,15 @@ CLAIMED["C17"] = {
     "technique": "Lean 4 proof + machine-checked refutation witnesses + differential correspondence run with out-of-band time travel",
 }
 
+CLAIMED["C01"] = {
+    "text": "Refinement theorem (Lean): for every store state satisfying the invariant (id order, unique index, key coherence), every call (insert/replace/remove/remove_all/fetch/fetch_all/count/scan, any kind, strings, bytes, tag lists, filters, limits) the store model's output equals that of a short association-list specification keyed by (kind, category, name), the abstraction commutes and the invariant is kept; lifted by induction to every finite call sequence (run_refines); Item/Kms separation and bit-for-bit read-after-write are corollaries on the specification. The store model (the statement-level semantics of sqlite/mod.rs) is executed against the real backend on random call sequences (colliding + exotic alphabets, duplicated tags, empty and non-UTF-8 values, > 1 page, both kinds, several sessions, file and in-memory) and compared call by call together with an independent reference map in the harness.",
+    "note": SQL + "Encryption is abstracted to key identities (a row matches and decrypts only under the key it was written with); the byte-level layer is C02/C03/C09. Expiry is C17's subject (calls without expiry here).",
+    "technique": "Lean 4 refinement proof to an abstract map (induction over call sequences) + differential correspondence run",
+}
+CLAIMED["C07"] = {
+    "text": "Theorems (Lean): frame (a call through one profile's session leaves every other profile's rows untouched), isolation over arbitrary interleaved histories (the outputs of profile P's calls equal those of P's own map run on P's calls alone, whatever other profiles do), remove_profile removes exactly that profile's rows, the removed profile can no longer be resolved, key-cache coherence under create/remove/resolve, a created profile is empty even when SQLite reuses a removed profile's row id; the D7 defect of the pinned tree is kept as a machine-checked witness for the un-repaired behaviour. Correspondence: interleaved histories over 6 profile names (incl. the empty name) with colliding identities, create/remove/re-create, sessions on missing profiles, per-profile scans.",
+    "note": SQL + "Two genuine defects were found by this check and repaired (fix: commits 37007c6, c0b681f; known-findings.json). One store handle is modelled; a second handle's cache is outside the model (documented residue).",
+    "technique": "Lean 4 proof (frame + refinement, induction over interleaved histories) + differential correspondence run",
+}
+
 NOT_YET = {}
